@@ -23,7 +23,7 @@ def partition_rule(prog, rep):
     rep.rule("PARTITION", "every return of a token scanner `check(string)` is either (falsy, string) with the input unchanged, or a pair of complementary slices of the input at one cut: (string[:k], string[k:]) or (token, string[len(token):]) with token a prefix accumulator; a character in neither half is silently dropped from the program")
     n = 0
     for ci in token_classes(prog):
-        fi = ci.methods.get("check")
+        fi = prog.method(ci, "check")
         if fi is None:
             continue
         n += 1
@@ -261,10 +261,23 @@ def assignment_rule(prog, rep):
         if len(calls_p) == 1 and len(calls_i) == 1:
             p, i = calls_p[0], calls_i[0]
             asg = parent(p)
-            ok = norm(p.args[0]) == st and norm(p.args[1]) == "namespace" and isinstance(asg, ast.Assign) and isinstance(asg.targets[0], ast.Tuple) and len(asg.targets[0].elts) == 2
+            # the text handed to parse() is the loop's statement, possibly through `x = y` / `x = y.strip()` inside the loop
+            alias = {st}
+            changed_ = True
+            while changed_:
+                changed_ = False
+                for a_ in ast.walk(lp):
+                    if isinstance(a_, ast.Assign) and len(a_.targets) == 1 and isinstance(a_.targets[0], ast.Name) and a_.targets[0].id not in alias:
+                        v_ = a_.value
+                        if isinstance(v_, ast.Call) and isinstance(v_.func, ast.Attribute) and v_.func.attr == "strip" and not v_.args:
+                            v_ = v_.func.value
+                        if isinstance(v_, ast.Name) and v_.id in alias:
+                            alias.add(a_.targets[0].id)
+                            changed_ = True
+            ok = norm(p.args[0]) in alias and norm(p.args[1]) == "namespace" and isinstance(asg, ast.Assign) and isinstance(asg.targets[0], ast.Tuple) and len(asg.targets[0].elts) == 2
             if ok:
                 a_, b_ = [norm(x) for x in asg.targets[0].elts]
-                ok = [norm(a) for a in i.args] == [a_, b_, "namespace", "datastore"] and p.lineno < i.lineno
+                ok = [norm(a) for a in i.args] == [a_, b_, "namespace", "datastore"]
             # same block, consecutive
             blk = None
             for n in ast.walk(lp):
@@ -272,7 +285,7 @@ def assignment_rule(prog, rep):
                     b = getattr(n, f, None)
                     if isinstance(b, list) and asg in b:
                         blk = b
-            ok = ok and blk is not None and any(isinstance(s, ast.Expr) and s.value is i for s in blk)
+            ok = ok and blk is not None and any(isinstance(s, ast.Expr) and s.value is i and blk.index(s) > blk.index(asg) for s in blk)
             why = "parse / interpret of a statement are not paired inside the loop in that order"
         else:
             why = f"{len(calls_p)} parse / {len(calls_i)} interpret calls inside the statement loop (parsing hoisted out of the loop binds stale variable values)"
@@ -570,7 +583,7 @@ def registry_rule(prog, rep):
     subs = sorted(c.name for c in token_classes(prog))
     rep.check(sorted(listed) == subs and len(listed) == len(set(listed)), "REGISTRY", "qtypes", "exhaustive token table", f"{listed}", f"qtypes lists {listed} but the QToken subclasses are {subs}: a token kind can never be recognised (or is tried twice)", f"{mi.relpath}:{getattr(qt, 'lineno', 0)}")
     for c in token_classes(prog):
-        miss = [m for m in ("check", "parse", "interpret") if m not in c.methods]
+        miss = [m for m in ("check", "parse", "interpret") if prog.method(c, m) is None or prog.method(c, m).cls.name == "QToken"]
         rep.check(not miss, "REGISTRY", c.name, "defines check/parse/interpret", "", f"{c.name} does not define {miss}: the abstract method raises NotImplementedError", f"{mi.relpath}:{c.node.lineno}")
     # scanners are tried in the listed order, first match wins
     pt = prog.func("_parse_token")
